@@ -24,7 +24,7 @@ pub fn emit_interface(interface: &Interface, input_name: &str) -> String {
             InterfaceNode::Const(r#const) => {
                 let const_ident = r#const.ident.to_uppercase();
                 let ty = change_primitive(r#const.r#type);
-                let value = &r#const.value;
+                let value = crate::globals::const_literal(r#const);
                 constants.push_str(&format!(
                     r#"{ty} {ident}_{const_ident} = {value};
     "#
